@@ -358,6 +358,19 @@ func (e *Engine) step(st *State) {
 		addr := e.get(st, f, x.Addr)
 		val := e.get(st, f, x.Val)
 		e.storeTo(st, addr, val)
+		if il := st.interleave; il != nil && st.status == Running {
+			if p, ok := addr.(Ptr); ok && p.Obj != 0 && p.Obj <= il.baseObj {
+				o := st.clone()
+				o.interleave = nil
+				o.interleaveFork = true
+				e.callClosure(o, il.reader, nil, func(s *State, res Value) {
+					s.status = Finished
+					s.note = "interleaved reader finished"
+				}, nil)
+				e.pushWork(o)
+				e.stats.forks++
+			}
+		}
 	case *ssa.UnOp:
 		e.unop(st, f, x)
 	case *ssa.BinOp:
@@ -669,6 +682,19 @@ func (e *Engine) loadFrom(st *State, addr Value) Value {
 		}
 		return st.load(p)
 	case SymPtr:
+		if p.N > 0 && !mergeable(st.load(Ptr{p.Obj, pathAppend(p.Path, p.Off)})) {
+			// elements are pointers/slices/...: resolve the index by forking (the instruction is re-executed in the clones)
+			for i := 0; i < p.N; i++ {
+				if e.decide(st, Eq(p.Idx, ConstU(uint64(i), 64))) {
+					return st.load(Ptr{p.Obj, pathAppend(p.Path, p.Off+i)})
+				}
+				if st.status != Running {
+					return nil
+				}
+			}
+			st.status = Infeasible
+			return nil
+		}
 		var res Value
 		for i := p.N - 1; i >= 0; i-- {
 			v := st.load(Ptr{p.Obj, pathAppend(p.Path, p.Off+i)})
